@@ -1,5 +1,6 @@
 import FitModel.CsvSpec
 import FitProps.CsvTableLemmas
+import FitProps.CsvTableMoreLemmas
 /-! Lemmas about the fitconv model (C19). Core Lean only. -/
 namespace Fit.Csv
 open Fit.Value Fit.Msg Fit.Gen Fit.Gen.Csv
